@@ -4,6 +4,7 @@
 //   gencheck --prop C03|C04|C05 --seed S --shard i --nshards n --out report.json [--known f] [--replaydir d]
 //            [--tier quick|thorough] [--replay file]
 #include <cmath>
+#include <map>
 #include <functional>
 #include <iostream>
 #include <limits>
@@ -136,6 +137,18 @@ static std::vector<double> dict_for(const Cfg & c)
 
 // ------------------------------------------------------------------ failure plumbing
 struct Res { bool ok = true; std::string cls, msg; };
+// event digests per configuration (--digest file): the same driver run against two builds of the library that differ only in how automatic variables
+// start out (zero / pattern) must produce the same events; a difference is a read of an uninitialised variable (C08)
+static std::map<std::string, std::pair<uint64_t, uint64_t>> * g_digest = nullptr;
+static void digest_event(const std::string & key, const bxdecay0::event & e, size_t used)
+{
+  if (!g_digest) return;
+  auto & d = (*g_digest)[key]; uint64_t h = d.first ? d.first : 1469598103934665603ULL;
+  auto mixin = [&](const void * p, size_t n) { const unsigned char * c = (const unsigned char *)p; for (size_t i = 0; i < n; i++) { h ^= c[i]; h *= 1099511628211ULL; } };
+  uint64_t u = used; mixin(&u, sizeof u);
+  for (auto & p : e.get_particles()) { int code = (int)p.get_code(); double x[4] = {p.get_px(), p.get_py(), p.get_pz(), p.get_time()}; mixin(&code, sizeof code); mixin(x, sizeof x); }
+  d.first = h; d.second++;
+}
 struct Ctx { Report rep; Known known; std::string prop, replaydir; std::map<std::string, int> per; bool breadcrumb = false; std::string curfile; };
 
 static std::string case_json(const Ctx & cx, const Cfg & c, const Tape & itape, const Tape & tape, size_t used, const std::string & sig, const std::string & msg, const std::string & extra)
@@ -297,6 +310,7 @@ static Res shoot_and_check(Ctx & cx, const Cfg & c, G & g, Tape & tape, size_t &
   catch (TapeOverrun &) { used = rr.pos; r.ok = false; r.cls = "unbounded-work"; r.msg = "one shot consumed more than " + std::to_string(g_shot_limit) + " deviates"; return r; }
   catch (std::exception & e) { used = rr.pos; r.ok = false; r.cls = "exception"; r.msg = e.what(); return r; }
   used = rr.pos;
+  digest_event(c.key(), ev, used);
   if (cx.prop == "C04") return c04_predicate(c, ev, qmax);
   Res r4 = c04_predicate(c, ev, qmax); // C03 presupposes a well-formed event
   if (!r4.ok) { r4.cls = "malformed:" + r4.cls; return r4; }
@@ -449,6 +463,7 @@ static std::vector<Cfg> dbd_grid()
 }
 
 static void run_low_pass(Ctx & cx, const Args & a, uint64_t seed, int shard, int nsh, bool thorough);
+static void run_climb(Ctx & cx, const Cfg & c, G & g, uint64_t seed, long iters);
 static int run_c03_c04(Ctx & cx, const Args & a)
 {
   uint64_t seed = a.i("seed", 1); int shard = a.i("shard", 0), nsh = a.i("nshards", 1); bool thorough = a.s("tier", "quick") == "thorough";
@@ -482,6 +497,13 @@ static int run_c03_c04(Ctx & cx, const Args & a)
       }
       cx.rep.label("bkg:" + n);
     }
+    // targeted search (hill climbing on the tape, objective = deviates consumed by one shot): nuclides dealt out over the shards
+    { long iters = a.i("climb", thorough ? 200000 : 25000); size_t ni = 0;
+      for (auto & n : catalog::background_published()) {
+        if ((ni++ % nsh) != (size_t)shard || iters <= 0) continue;
+        Cfg c; c.kind = "bkg"; c.name = n; GenRun gr; init_gen(gr, c, mix(seed, std::hash<std::string>()(c.key())));
+        if (gr.accepted) run_climb(cx, c, *gr.g, mix(seed, ni), iters);
+      } }
   }
   // DBD grid
   auto grid = dbd_grid();
@@ -612,6 +634,28 @@ static int run_c05(Ctx & cx, const Args & a)
     cx.rep.label("prefix-pair:" + x + "<" + y);
   }
   cx.rep.counters["prefix_pairs"] = npairs;
+  // (2') the double-beta entries with documented short-lived daughters (README appendix: Bi214 for Bi214+At214, Pb214 for Pb214+Po214, Po218 for
+  // Po218+Rn218+Po214, Rn222 for Rn222+Ra222+Rn218+Po214): every event carries the two leptons of the primary process AND the alpha of every daughter
+  // of the chain - the decay of that name is not complete without them
+  {
+    static const struct { const char * name; int nalpha; } CH[] = {{"Bi214", 1}, {"Pb214", 1}, {"Po218", 2}, {"Rn222", 3}};
+    for (auto & ch : CH) for (int mode : {1, 4}) {
+      Cfg c; c.kind = "dbd"; c.name = ch.name; c.level = 0; c.mode = mode; GenRun gr; init_gen(gr, c, mix(seed, 0xC4A1 + mode));
+      if (!gr.accepted) continue;
+      std::vector<double> dict = dict_for(c); bxdecay0::event ev; int nchain = thorough ? 20000 : 2000;
+      for (int k = shard; k < nchain; k += nsh) {
+        Tape tape; tape.seed = mix(mix(seed, 0xC4A2), mix(std::hash<std::string>()(c.key()), k)); tape.prof = profile_for(splitmix64(tape.seed), false); tape.dict = &dict;
+        PropFn fn = [&](Tape & t) { Res r; TapeRandom rr(t, 0, DEV_LIMIT); bxdecay0::event e2; try { gr.g->shoot(rr, e2); } catch (std::exception & e) { r.ok = false; r.cls = "exception"; r.msg = e.what(); return r; }
+          int na = 0, nl = 0; for (auto & p : e2.get_particles()) { if (p.is_alpha()) na++; if (p.is_electron()) nl++; }
+          if (na != ch.nalpha) { r.ok = false; r.cls = "chain-daughters"; r.msg = std::string("double-beta event of '") + ch.name + "' carries " + std::to_string(na) + " alpha particle(s), its documented chain of short-lived daughters emits " + std::to_string(ch.nalpha); }
+          else if (nl < 2) { r.ok = false; r.cls = "chain-daughters"; r.msg = std::string("double-beta event of '") + ch.name + "' carries fewer than two electrons"; }
+          return r; };
+        Res r = fn(tape); cx.rep.evaluations++;
+        if (!r.ok) { Tape none; report_failure(cx, c, none, tape, r, fn, 0); break; }
+      }
+      cx.rep.label(std::string("dbd-chain:") + ch.name); cx.rep.nt(std::string("dbd-chain|") + ch.name + "|" + std::to_string(mode));
+    }
+  }
   // (3) catalogue set equalities and acceptance (shard 0 only; deterministic, finite)
   if (shard == 0) {
     auto add_fail = [&](const std::string & cls, const std::string & msg) {
@@ -695,6 +739,40 @@ static int run_c05(Ctx & cx, const Args & a)
   return 0;
 }
 
+// ------------------------------------------------------------------ C04: targeted search for runaway cascades
+// "at most 100 particles, bounded work" cannot be refuted by sampling when the offending path needs the same improbable branch again and again (a
+// cycle in a cascade graph: each trip costs a factor 1e-2..1e-4, 45 trips 1e-45).  Hill climbing on the tape can: the objective is the number of
+// PARTICLES of the event (not the deviates consumed: a rejection loop can be kept spinning by an adversarial, probability-zero sequence of deviates,
+// which is not what the property is about); a step re-draws the tape from one position on (biased to the tail, steered onto the reference thresholds)
+// and is kept when the event has at least as many particles.  On a cascade graph without cycles the climb levels off at the longest cascade; with a
+// cycle every further trip is one accepted step until the event exceeds 100 particles.  Every shot goes through the validity predicate; a shot that
+// exhausts the deviate budget during the climb is inconclusive (counted), never a violation.
+static void run_climb(Ctx & cx, const Cfg & c, G & g, uint64_t seed, long iters)
+{
+  std::vector<double> dict = dict_for(c); bxdecay0::event ev; Tape none;
+  Tape best; best.seed = mix(seed, 0xC11B); best.prof.p_plain = 0.5; best.prof.w_dict = 3; best.prof.w_low = best.prof.w_high = 0.25; best.dict = &dict;
+  size_t used_best = 0, np_best = 0;
+  { size_t u = 0; Res r0 = shoot_and_check(cx, c, g, best, u, ev, 0); if (!r0.ok) return; used_best = u; np_best = ev.get_particles().size(); }   // (the sampled passes report what a plain shot shows)
+  Rng rr(mix(seed, 0x5eac));
+  for (long it = 0; it < iters; it++) {
+    Tape t = best; size_t n = std::max<size_t>(1, used_best);
+    size_t j = rr.chance(0.7) ? n - 1 - (size_t)rr.range(0, (int)std::min<size_t>(n - 1, 24)) : (size_t)rr.range(0, (int)n - 1);
+    t.v.resize(std::min(t.v.size(), j)); t.seed = mix(best.seed, 977 * (uint64_t)it + 13);   // positions >= j are drawn afresh (same steering profile)
+    size_t u = 0; Res r = shoot_and_check(cx, c, g, t, u, ev, 0);
+    cx.rep.evaluations++;
+    if (!r.ok && r.cls == "unbounded-work") { cx.rep.count("climb_shot_exhausted_deviate_budget_inconclusive"); continue; }
+    if (!r.ok) {
+      if (!cx.known.match(cx.prop, cx.prop + "|" + c.name + "|L0|M0|-|" + r.cls).empty()) continue;   // a recorded finding met on the way: not the target of the climb
+      PropFn fn = [&](Tape & tt) { size_t uu; bxdecay0::event e2; return shoot_and_check(cx, c, g, tt, uu, e2, 0); };
+      t.at(u ? u - 1 : 0); report_failure(cx, c, none, t, r, fn, u); cx.rep.label("climb-ended-in-violation:" + r.cls); return;
+    }
+    size_t np = ev.get_particles().size();
+    if (np >= np_best) { if (np > np_best) cx.rep.count("climb_steps_up"); t.at(u ? u - 1 : 0); best = t; used_best = u; np_best = np; }
+  }
+  cx.rep.nt("climb|" + c.name + "|np" + std::to_string(np_best));
+  cx.rep.labels["climb-longest-event-particles:" + c.name] = np_best;
+}
+
 // ------------------------------------------------------------------ cascade-level pass (C03: energy closure, C04: validity)
 // Every de-excitation routine <Nuclide>low(levelkeV) is called directly for every entry level the reference text tabulates: the cascade of a daughter
 // level never depends on the primary leptons, which cost most of a double-beta event, so tens of thousands of steered tapes per level are affordable.
@@ -709,6 +787,7 @@ static Res low_case(const std::string & prop, const Cfg & c, Tape & tape, size_t
   catch (TapeOverrun &) { used = rnd.pos; fail("unbounded", "cascade consumed more than " + std::to_string(DEV_LIMIT) + " deviates"); return r; }
   catch (std::exception & e) { used = rnd.pos; fail("exception", std::string("cascade raised: ") + e.what()); return r; }
   used = rnd.pos;
+  digest_event(c.key(), ev, used);
   const auto & ps = ev.get_particles();
   if (prop == "C04") {
     if (ps.size() > 100) fail("too-many", "cascade has " + std::to_string(ps.size()) + " particles (>100)");
@@ -799,7 +878,9 @@ int main(int argc, char ** argv)
   int rc = 0;
   try {
     if (a.has("replay")) { fflush(stdout); dup2(out_fd, 1); rc = run_replay(cx, a.s("replay")); fflush(stdout); return rc; }
+    static std::map<std::string, std::pair<uint64_t, uint64_t>> digests; if (a.has("digest")) g_digest = &digests;
     if (cx.prop == "C05") rc = run_c05(cx, a); else rc = run_c03_c04(cx, a);
+    if (a.has("digest")) { std::ofstream o(a.s("digest") + "." + std::to_string(a.i("shard", 0))); for (auto & kv : digests) o << kv.first << "\t" << kv.second.first << "\t" << kv.second.second << "\n"; }
   } catch (std::exception & e) { fprintf(res, "HARNESS-ERROR %s\n", e.what()); fflush(res); return 2; }
   cx.rep.write(a.s("out", "report.json"));
   unlink(cx.curfile.c_str());
